@@ -452,7 +452,11 @@ class Gen:
                     op['line'], op['file'] = self.physical(lines), short
                     for depth in reversed(range(len(lab['ns']))):
                         lines.append('    ' * depth + '}')
-            self.out.files.append((short, '\n'.join(lines) + '\n'))
+            text = '\n'.join(lines) + '\n'
+            if rng.random() < 0.12:  # a file saved with CRLF line endings is the same program, line for line
+                text = text.replace('\n', '\r\n')
+                self.out.features['crlf-files'] = self.out.features.get('crlf-files', 0) + 1
+            self.out.files.append((short, text))
 
     # ------------------------------------------------------------------ the hand inliner (on the AST)
     def inline_expr(self, e: Any, env: Dict[Any, str]) -> str:
